@@ -312,6 +312,28 @@ def section_pinched(M, dots, signs):
     return any(v > 2 for v in deg.values())
 
 
+def endpoints_resolved(M, dots, signs, nlen=1.0):
+    """capping works at the documented resolution tol.merge = 1e-8 (vertices closer than that are one vertex; the two
+    faces sharing a cut edge each compute its crossing point and rely on that merge): exact volumes / watertightness
+    are demanded when all distinct expected section points are > 100 tol.merge apart and every crossing point is
+    reproducible in float64 to tol.merge / 10 (error ~ 8 eps scale / sin(edge, plane))"""
+    V, F = M["V"], M["F"]
+    E = M["E"] if "E" in M else edges_of(F)
+    cut = E[signs[E[:, 0]] * signs[E[:, 1]] < 0]
+    if len(cut):
+        L = np.linalg.norm(V[cut[:, 1]] - V[cut[:, 0]], axis=1)
+        inv_sin = L * nlen / np.abs(dots[cut[:, 0]] - dots[cut[:, 1]])
+        if 8 * EPS * max(float(np.abs(V).max()), 1e-300) * float(inv_sin.max()) > 0.1 * THR:
+            return False
+    sep = endpoints_separated({"V": V, "E": E, "F": F}, dots, signs, min_dist=100 * THR)
+    return sep or not ((signs[F].min(axis=1) < 0) & (signs[F].max(axis=1) > 0)).any() and not (signs == 0).any()
+
+
+def edges_of(F):
+    e = np.sort(np.vstack((F[:, [0, 1]], F[:, [1, 2]], F[:, [2, 0]])), axis=1)
+    return np.unique(e, axis=0)
+
+
 def closed_precondition(M, dots, signs, amb):
     """closed input, no vertex on the plane, distinct crossing points farther apart than the path merge tolerance"""
     if not M["closed"] or amb or (signs == 0).any():
@@ -427,6 +449,8 @@ def b_section(case, ctx):
                 l3 = (np.column_stack((s2.reshape((-1, 2)), np.zeros(2 * len(s2)))) @ R.T + T[:3, 3]).reshape((-1, 2, 3))
                 # 2D round trip through the frame; a vertex taken as "on the plane" (|dot| <= 1e-8) is projected onto it
                 rt = 64 * EPS * max(scale, abs(h)) * 4 + float(np.abs(dk[sk == 0]).max() if (sk == 0).any() else 0.0)
+                if np.abs(np.linalg.inv(T) - np.eye(4)).max() < 1e-8:
+                    rt += 4e-8 * (1.0 + scale)  # documented identity shortcut of transform_points (to_2D taken as identity)
                 check_segments(sm, M, oh, nh, dk, sk, ak, l3, np.asarray(fidx[k]), extra_tol=rt)
                 p2 = paths[k]
                 check((p2 is None) == (len(s2) == 0), sm + "|none_iff_empty", f"height {h}: {len(s2)} segments, path {p2}")
@@ -615,6 +639,7 @@ def b_cap(case, ctx):
         if len(planes) > 1:
             variants.insert(0, ("head", planes[:-1]))
         ambiguous = False
+        unresolved_any = False
         causes = set()
         Mhead = None
         for name, pl in variants:
@@ -623,9 +648,9 @@ def b_cap(case, ctx):
             # narrow root-cause classes decided from the input (and, for plane lists, from the intermediate solid)
             ve, c = exact_side_volume(M, pl)
             cause = None
-            pin = section_pinched(M, *oracle_signs(M, *pl[0])[:2])
+            pin = ref.cap_boundary_pinched(ref.Clip([t for t in V[F]]).cut(*pl[0]).polys, pl[0][0], pl[0][1], scale)
             if len(pl) > 1 and Mhead is not None:
-                pin = pin or section_pinched(Mhead, *oracle_signs(Mhead, *pl[-1])[:2])
+                pin = pin or ref.cap_boundary_pinched(ref.Clip([t for t in Mhead["V"][Mhead["F"]]]).cut(*pl[-1]).polys, pl[-1][0], pl[-1][1], scale)
             if c.snapped_cut:
                 cause = "snapped_vertex"
             elif pin:
@@ -636,10 +661,23 @@ def b_cap(case, ctx):
                 causes.add(cause)
                 cl.append("cap:" + cause.split("|")[0])
             sig = (f"C11.cap|{cause}" if cause else base) + "|side" + name
-            if len(pl) == 1:
-                out = mesh.slice_plane(plane_origin=O[0].copy(), plane_normal=N[0].copy(), cap=True, engine=engine)
-            else:
-                out = mesh.slice_plane(plane_origin=O.copy(), plane_normal=N.copy(), cap=True, engine=engine)
+            res = endpoints_resolved(M, *oracle_signs(M, *pl[0])[:2], nlen=float(np.linalg.norm(pl[0][1])))
+            if len(pl) > 1 and Mhead is not None:
+                res = res and endpoints_resolved(Mhead, *oracle_signs(Mhead, *pl[-1])[:2], nlen=float(np.linalg.norm(pl[-1][1])))
+            if not res:
+                cl.append("cap:unresolved_skipped")
+            try:
+                if len(pl) == 1:
+                    out = mesh.slice_plane(plane_origin=O[0].copy(), plane_normal=N[0].copy(), cap=True, engine=engine)
+                else:
+                    out = mesh.slice_plane(plane_origin=O.copy(), plane_normal=N.copy(), cap=True, engine=engine)
+            except Exception as e:  # raised by the library call: same root-cause classes as a wrong result
+                from ..core import trimesh_frame
+                fr = trimesh_frame(e)
+                if not res and cause is None:
+                    unresolved_any = True
+                    continue
+                raise Violation(sig + f"|exc|{type(e).__name__}|{fr[0] + ':' + fr[1] if fr else '?'}", f"slice_plane(cap=True, engine={engine}) raised {type(e).__name__}: {e}")
             OV = np.asarray(out.vertices, dtype=np.float64).reshape((-1, 3))
             OF = np.asarray(out.faces, dtype=np.int64).reshape((-1, 3))
             OT = OV[OF]
@@ -657,7 +695,8 @@ def b_cap(case, ctx):
                 for (oo, nn) in pl:
                     d = ((used - oo) @ nn) / np.linalg.norm(nn)
                     check(d.min() >= -(THR / np.linalg.norm(nn) + 2e-8 + 1e-12 * scale), sig + "|negative_side", lambda: f"vertex {used[int(np.argmin(d))].tolist()} is {d.min():.3g} on the negative side")
-            if ve is not None and not c.ambiguous:
+            unresolved_any = unresolved_any or not res
+            if ve is not None and not c.ambiguous and res:
                 check(abs(vol - ve) <= atol, sig + "|volume", lambda: f"capped volume {vol!r} vs exact volume of solid ∩ half space {ve!r} (solid {v0!r}, tol {atol:.3g}); {len(OF)} faces")
                 cut = ve > 1e-6 * v0 and ve < (1 - 1e-6) * v0
                 any_cut = any_cut or cut
@@ -672,7 +711,7 @@ def b_cap(case, ctx):
                         check(ref.closed_oriented(OF) and bool(out.is_volume), sig + "|is_volume", f"closed_oriented={ref.closed_oriented(OF)} is_volume={out.is_volume}")
                     else:
                         cl.append("cap:half_with_zero_area_face")
-        if not ambiguous:
+        if not ambiguous and not unresolved_any and all(k in vols for k in ("+", "-")) and (len(planes) == 1 or "head" in vols):
             whole = v0 if len(planes) == 1 else vols["head"][0]
             tol = vols["+"][1] + vols["-"][1]
             sg = f"C11.cap|{sorted(causes)[0]}" if causes else base
@@ -750,7 +789,7 @@ def plane_spec(draw, lattice_hint=True, near_ok=True, kinds=None):
     p["flip"] = draw(st.booleans())
     if near_ok and kind != "general" and draw(st.integers(0, 5)) == 0:
         p["near"] = {
-            "delta": draw(st.sampled_from([0.0, 1e-10, 1e-9, 5e-9, 2e-8, 1e-7, 1e-6])) * draw(st.sampled_from([1.0, -1.0])),
+            "delta": draw(st.sampled_from([0.0, 1e-10, 1e-9, 3e-9, 2e-8, 1e-7, 1e-6])) * draw(st.sampled_from([1.0, -1.0])),
             "eps": draw(st.sampled_from([0.0, 0.0, 1e-9, 1e-8, 1e-7, 1e-6])),
             "r": [draw(_f(-1, 1)) for _ in range(3)],
         }
